@@ -285,7 +285,7 @@ pub fn format_blame_metadata(
                 }))
             }
             Some(Placeholder::Str("author")) => Some(Cow::from(blame.author)),
-            Some(Placeholder::Str("commit")) => Some(delta::format_raw_line(blame.commit, config)),
+            Some(Placeholder::Str("commit")) => Some(Cow::from(blame.commit)),
             None => None,
             _ => unreachable!("Unexpected `git blame` input"),
         };
@@ -296,12 +296,20 @@ pub fn format_blame_metadata(
                 .chars()
                 .count()
                 .saturating_sub(UnicodeWidthStr::width(field.as_ref()));
-            s.push_str(&format::pad(
+            let padded = format::pad(
                 &field,
                 width + unicode_modifier_width,
                 alignment_spec,
                 placeholder.precision,
-            ))
+            );
+            if placeholder.placeholder == Some(Placeholder::Str("commit")) {
+                // A hyperlink goes around the commit as it is shown: width and precision
+                // apply to the text, not to the escape sequences of the link.
+                let shown = padded.trim();
+                s.push_str(&padded.replacen(shown, &delta::format_raw_line(shown, config), 1));
+            } else {
+                s.push_str(&padded)
+            }
         }
         suffix = placeholder.suffix.as_str();
     }
